@@ -160,10 +160,18 @@ fn address_from_script_iff_template() {
     kani::cover!(!want && len == 22);
 }
 
+/// `script_pubkey` must encode witness versions 0..=16 with the small-integer opcodes; reaching the generic
+/// script-number encoder (a loop with a symbolic bound) from there would already be a violation.
+fn scriptint_unreachable(_n: i64) -> Vec<u8> {
+    assert!(false, "witness version pushed through build_scriptint");
+    Vec::new()
+}
+
 // script_pubkey() inverts from_script: case split on concrete lengths (the builder allocates and copies).
 macro_rules! addr_roundtrip {
-    ($name:ident, $len:expr) => {
+    ($name:ident, $len:expr, $unw:literal) => {
         #[kani::proof]
+        #[kani::stub(build_scriptint, scriptint_unreachable)]
         fn $name() {
             const L: usize = $len;
             let mut b: [u8; L] = kani::any();
@@ -187,21 +195,21 @@ macro_rules! addr_roundtrip {
         }
     };
 }
-//@ harness: address_script_roundtrip_23 class=F tier=quick
+//@ harness: address_script_roundtrip_l23 class=F tier=quick
 //@ clause: whenever from_script yields an address, address.script_pubkey() is byte-identical to the script: all 23-byte scripts (p2sh, v1+ with 21-byte program)
-addr_roundtrip!(address_script_roundtrip_23, 23);
-//@ harness: address_script_roundtrip_25 class=F tier=quick
+addr_roundtrip!(address_script_roundtrip_l23, 23, 26);
+//@ harness: address_script_roundtrip_l25 class=F tier=quick
 //@ clause: same, all 25-byte scripts (p2pkh, v1+ with 23-byte program)
-addr_roundtrip!(address_script_roundtrip_25, 25);
-//@ harness: address_script_roundtrip_22 class=F tier=quick
+addr_roundtrip!(address_script_roundtrip_l25, 25, 28);
+//@ harness: address_script_roundtrip_l22 class=F tier=quick
 //@ clause: same, all 22-byte scripts (v0 p2wpkh, v1+ with 20-byte program)
-addr_roundtrip!(address_script_roundtrip_22, 22);
-//@ harness: address_script_roundtrip_34 class=F tier=quick
+addr_roundtrip!(address_script_roundtrip_l22, 22, 25);
+//@ harness: address_script_roundtrip_l34 class=F tier=quick
 //@ clause: same, all 34-byte scripts (v0 p2wsh, p2tr, v2..v16 with 32-byte program)
-addr_roundtrip!(address_script_roundtrip_34, 34);
-//@ harness: address_script_roundtrip_4 class=F tier=quick
+addr_roundtrip!(address_script_roundtrip_l34, 34, 37);
+//@ harness: address_script_roundtrip_l04 class=F tier=quick
 //@ clause: same, all 4-byte scripts (shortest witness program)
-addr_roundtrip!(address_script_roundtrip_4, 4);
-//@ harness: address_script_roundtrip_42 class=F tier=quick
+addr_roundtrip!(address_script_roundtrip_l04, 4, 7);
+//@ harness: address_script_roundtrip_l42 class=F tier=quick
 //@ clause: same, all 42-byte scripts (longest witness program)
-addr_roundtrip!(address_script_roundtrip_42, 42);
+addr_roundtrip!(address_script_roundtrip_l42, 42, 45);
